@@ -165,6 +165,26 @@ CHECKS = {
             "tolerance 1e-9 vs observed noise <= 5e-15", "DESIGN.md §3 C09"),
 }
 PENDING = {}
+# workload dimensions added while closing the seeded-change rounds (DESIGN.md 9.3), appended to the level text
+ADDED = {
+    "C01": " API sessions: one reference object associated and evaluated several times with different options (each evaluation judged against the generating arrays); CLI runs include plots with colour-map limits, zero-valued numeric options and near-identical estimates.",
+    "C02": " Sizes beyond 1024 poses in the quick tier; the arguments reaching the pair selection are compared with the command line (incl. --delta_tol 0); only forward pairs are accepted.",
+    "C03": " A third call site: main_ape.ape / main_rpe.rpe with alignment requested on generic, near-identical, identical and coincident pairs (the wrapped umeyama_alignment must be reached exactly once with the two position sets).",
+    "C04": " Whole-number data in integer containers and quaternions of file precision.",
+    "C06": " Whole-number / zero-based stamps; paths that held other content earlier in the process.",
+    "C07": " Transformation files with scales 1e-6..1e6 and hand-written whole-number matrices.",
+    "C08": " The align operation is also judged by the Umeyama oracle at that call site; whole-number coordinates in integer containers; subclass instances.",
+    "C10": " Re-used pose lists and re-used RPE objects after in-place edits; evo_rpe runs whose recorded pairs are judged against the command line's delta / tolerance (incl. 0); sizes beyond 1024 poses in the quick tier.",
+    "C11": " evo_ape runs with forced time cropping (together with time offsets) judged by the reference pipeline; integer timestamp arrays in merges.",
+    "C12": " Sessions: main_rpe.rpe(support_loop=True) and main_ape.ape evaluated repeatedly on the same (already used) objects, every earlier result re-inspected at the end, distance arrays judged against the stored trajectories.",
+    "C13": " Identical paths listed twice; statistics that are exactly 0.0 in every result.",
+    "C14": " Objects derived from one source (deep copies, synchronised copies, split parts) projected onto different planes; evo_traj runs with --project_to_plane combined with the other processing options.",
+    "C15": " Output-only options (plots, relative time, tables, log files), zero-valued options, whole-number transformation files.",
+    "C16": " Colour-map limits inside the value range; results with nested user annotations (NaN/Inf/None); merge partners in the same storage state.",
+    "C17": " Existing targets as files with content, empty files or symbolic links; targets re-spelled (./x, absolute, sub/../x, ~/x) with the home directory watched like the working directory; every cell followed by a second save in the same process.",
+    "C19": " Crash points at every file-system primitive called from library helpers; settings.json / ~/.evo as symbolic links; the settings file named by relative spellings from other directories.",
+    "C20": " A decoy current figure; plot.trajectories with several panels on one figure.",
+}
 
 
 def main():
@@ -182,7 +202,7 @@ def main():
                 "evidence_file": "/verif/evidence/%s.json" % pid,
                 "replay_cmd_template": "./check %s --replay {path}" % pid,
                 "engine": "vmon",
-                "level_claimed": {"category": cat, "text": text, "design_ref": ref},
+                "level_claimed": {"category": cat, "text": text + ADDED.get(pid, ""), "design_ref": ref},
                 "level_note": note,
                 "technique": tech,
             })
